@@ -329,8 +329,12 @@ def plain_table(rng):
         mid.append({"aid": 50, "inherited": True, "override": ("list", [V(9), V(0)])})
     if rng.random() < 0.4:
         mid.append({"aid": 2, "inherited": True, "override": S(8)})
+    if rng.random() < 0.5:       # the default of the attribute invalidated_by attribute 1 (C05-G2)
+        mid.append({"aid": 3, "inherited": True, "override": V(6)})
     k4 = {"id": 4, "base": 2, "kind": "plain", "attrs": mid}
     leaf = []
+    if rng.random() < 0.25:
+        leaf.append({"aid": 3, "inherited": True, "override": rng.choice([V(5), NONE])})
     if rng.random() < 0.5:
         leaf.append({"aid": 2, "inherited": True, "override": S(0)})
     if rng.random() < 0.3:
@@ -473,7 +477,59 @@ def chain_table(rng):
         sub.append({"aid": SUB, "ty": INT, "default": rng.choice([None, V(1), V(1)]), "decl": "Attr",
                     "inv_by": [rng.choice([END, MID, TAIL])]})
     k3 = {"id": 3, "base": 2, "eager": rng.random() < 0.5, "frozen": frozen, "frozen_inherited": True, "attrs": sub}
-    return [k1, k2, k3]
+    # PLAIN (undecorated) subclasses, one (K4, of K2 or of the spec subclass K3) and two (K5, of K4)
+    # levels deep, whose class attributes override only the DEFAULT of attributes that are
+    # invalidated_by others: the dependant, the middle / end / tail of the chain, the List
+    # dependant, the subclass's further dependant.  They share the spec class's metadata, so the
+    # overridden attribute is still reset -- to the overriding default -- when what it depends
+    # on changes (C05-G2: it dropped out of the plain subclass's invalidation map).
+    k4_base = rng.choice([2, 2, 3])
+    cands = [a for a in attrs if a.get("inv_by")] + ([a for a in sub if a.get("inv_by")] if k4_base == 3 else [])
+
+    def override_of(a, salt):
+        t = a["ty"]
+        if t == INT:
+            return V(8 + salt)
+        if t == STR:
+            return S(8 + salt)
+        if t == ("opt", INT):
+            return rng.choice([V(6 + salt), V(6 + salt), NONE])
+        return ("list", [V(9), V(salt)])
+    picked = [a for a in cands if rng.random() < 0.5] or [rng.choice(cands)]
+    ov4 = [{"aid": a["aid"], "inherited": True, "override": override_of(a, 0)} for a in picked]
+    if rng.random() < 0.25:      # ... and sometimes the default of the head as well
+        ov4.append({"aid": HEAD, "inherited": True, "override": V(5)})
+    rng.shuffle(ov4)
+    k4 = {"id": 4, "base": k4_base, "kind": "plain", "frozen": frozen, "frozen_inherited": True, "attrs": ov4}
+    # second level: inherits K4's overrides, overrides some again / some others
+    ov5 = [{"aid": a["aid"], "inherited": True, "override": override_of(a, 1)} for a in cands if rng.random() < 0.25]
+    k5 = {"id": 5, "base": 4, "kind": "plain", "frozen": frozen, "frozen_inherited": True, "attrs": ov5}
+    return [k1, k2, k3, k4, k5]
+
+
+class HistChain(Hist5):
+    def attrs_of(self, cid):
+        """managed attributes of any class of the table: those declared along the chain of bases
+        (plain subclasses declare none)"""
+        by_id = {c["id"]: c for c in self.table}
+        chain, k = [], by_id[cid]
+        while k is not None:
+            chain.append(k)
+            k = by_id.get(k.get("base"))
+        out = []
+        for k in reversed(chain):
+            out += [a for a in k["attrs"] if not a.get("inherited")]
+        return out
+
+
+def overridden_along(table, cid):
+    """attributes whose default is overridden by a class attribute of `cid` or of one of its bases"""
+    by_id = {c["id"]: c for c in table}
+    out, k = set(), by_id[cid]
+    while k is not None:
+        out |= {a["aid"] for a in k["attrs"] if "override" in a}
+        k = by_id.get(k.get("base"))
+    return out
 
 
 def _topo(attrs):
@@ -500,13 +556,13 @@ def _topo(attrs):
 def chain_case(rng, rounds=2):
     table = chain_table(rng)
     _, heap0 = ic.resolve_table(table)
-    h = Hist5(rng, table, len(heap0))
+    h = HistChain(rng, table, len(heap0))
     frozen = table[1]["frozen"]
-    cid = rng.choice([2, 2, 3])
+    cid = rng.choice([2, 3, 4, 4, 5, 5])
     attrs = h.attrs_of(cid)
     by = {a["aid"]: a for a in attrs}
     no_default = lambda a: a.get("default") is None and a.get("factory") is None and "override" not in a
-    sub_over = {a["aid"] for a in table[2]["attrs"] if "override" in a} if cid == 3 else set()
+    sub_over = overridden_along(table, cid)
     empties = [a for a in attrs if a.get("inv_by") and no_default(a) and a["aid"] not in sub_over
                and a["ty"] == ("opt", INT)]          # the attributes left empty in the middle of a chain
     empty_ids = {a["aid"] for a in empties}
